@@ -133,6 +133,40 @@ CHECKS = {
              'metadata from the diff bytes (newline detection, decoding, hunk parsing all in TLA+) and compares with '
              'what generate_stats left, after one and after two calls.',
         ref='6 C13'),
+    'C05': dict(
+        technique='TLA+ object-model spec (Dom.tla: ToCalls/DomSerialize/DomParse/Normalize; MC_Dom RoundTrip) + '
+                  'TLC trace validation of DOM histories (Trace_Dom, snapshots + canonical bytes)',
+        text='MC_Dom: Parse(Serialize(t)) equals the documented normalisation of t, stated declaratively on the '
+             'tree, for all small trees. Random trees built through constructors, add_* and typed attributes are '
+             'serialised, parsed and serialised again; TLC validates every step: snapshot of every live tree = '
+             'Dom.tla state, to_bytes() = Writer.tla run on ToCalls(tree) byte for byte, parsed tree = DomParse.',
+        ref='6 C05'),
+    'C06': dict(
+        technique='TLA+ object-model spec (MC_Dom Canonical: fixed point) + TLC trace validation of load/save '
+                  'cycles on canonical and foreign files (Trace_Dom, adopt/c06 clauses, named deviation)',
+        text='Canonical form is a fixed point of load+save on all small trees (MC_Dom). For canonical files '
+             'to_bytes(from_bytes(b)) = b; for well-formed foreign files re-serialising succeeds, the reloaded tree '
+             'carries the same contents and a second cycle reproduces the bytes. TLC judges these relations between '
+             'observations and recognises the as-built failure D_DomOptionsNotWritable (known finding F16) from '
+             'the loaded tree.',
+        ref='6 C06'),
+    'C18': dict(
+        technique='TLA+ value-semantics model of the object model (Dom.tla) + TLC trace validation of '
+                  'interleaved histories over several live trees (Trace_Dom: snapshot of ALL trees after every step)',
+        text='Interleavings of mutators (typed assignment, in-place metadata mutation, options[...] mutation, '
+             'add_*) and observers (serialise twice, compare, repr) over >= 3 live trees created by every route '
+             '(defaults, keywords, one shared DiffXDOMReader, one shared DiffXDOMWriter). After every step TLC '
+             'requires the snapshots of all live trees to equal the model state, so sharing and mutating '
+             'observers are caught at the step where they happen.',
+        ref='6 C18'),
+    'C19': dict(
+        technique='TLA+ typed-attribute table and tree equality (Dom.tla SetAttr; MC_Dom SetAtomic/EqCongruent) + '
+                  'enumerated assignments/comparisons validated by TLC (Trace_Dom)',
+        text='Every attribute name (own, forwarded, unknown) x 28 candidate values at every container position, '
+             'invalid constructor keywords, and twin trees with single-field perturbations; TLC requires raised iff '
+             'the table rejects, all trees unchanged on rejection, ==/!= equal model-tree equality, and equal trees '
+             'to serialise identically.',
+        ref='6 C19'),
 }
 
 PENDING = {}
